@@ -220,6 +220,20 @@ class _K(object):
             return _present(cur) and (node.codes or node.external) and node.usage != 'N' and _plain_site(i, node, ep, sp, cur, doc) and dt == 'ID' \
                 and (not node.external or node.external in CODES)
         all_sites = [x for x in element_sites(doc, None) if pred(*x)]
+        # a code list on an element that is not of type ID (the diagnosis code pointers SV107-n are N0 with codes 1..8 / 1..12): a well-formed
+        # value of the element's own type and length that the list does not hold
+        typed = [x for x in element_sites(doc, None) if _present(x[4]) and x[1].codes and not x[1].external and x[1].usage != 'N' and _plain_site(x[0], x[1], x[2], x[3], x[4], doc)
+                 and gen_doc.dtype_of(x[1])[0] != 'ID']
+        if typed and rng.random() < (0.5 if all_sites else 1.0):
+            i, node, ep, sp, cur = rng.choice(typed)
+            dt, mn, mx = gen_doc.dtype_of(node)
+            pool = ['0', '9', '13', '99', '7', '12', '00', '10'] if (dt == 'R' or dt[0] == 'N') else ['ZZ', 'Z', 'QQQ', 'ZZZZ', 'Q9', 'X7X']
+            pool = [v for v in pool if mn <= len(v) <= mx and v not in node.codes]
+            if pool:
+                v = rng.choice(pool)
+                d = clone(doc)
+                set_value(d.recs[i], ep, sp, v)
+                return _mk(d, 'bad_code', i, ep, sp, ['7'], v, note='code-list-on-non-ID-element')
         if not all_sites:
             return None
 
